@@ -68,7 +68,8 @@ def diff4 (m o : Sys.Out4) : List String :=
   | .send rm pm portm im l2m, .send ro po porto io l2o =>
     (if (rm.op, rm.xid, rm.htype, rm.chaddr, rm.flags, rm.giaddr) != (ro.op, ro.xid, ro.htype, ro.chaddr, ro.flags, ro.giaddr) then ["header"] else []) ++
     (if (rm.yiaddr, rm.siaddr) != (ro.yiaddr, ro.siaddr) then ["addr"] else []) ++
-    (if rm.opts != ro.opts then ["opts"] else []) ++
+    (if rm.opts != ro.opts then "opts" :: ((rm.opts ++ ro.opts).map (·.1)).eraseDups.filterMap (fun c =>
+        if Plug.lookup c rm.opts != Plug.lookup c ro.opts then some s!"o{c}" else none) else []) ++
     (if (pm, portm, im, l2m) != (po, porto, io, l2o) then ["dest"] else [])
   | .panicNoIf, .send _ _ _ none true => []      -- the capture hook returns before the dereference
   | a, b => if a == b then [] else ["sent"]
@@ -124,13 +125,32 @@ def stepDg4 (st : St) (chain : List Sys.Elem4) (bound oob : String) (res : Strin
               [s!"FAIL C14 whole chain (server_id first): a request naming another server was answered: {Plug.short res}"] else []
           | _, _ => []
         -- SYS_file_address4 on the observation: only plugins that never end the chain before `file`, client listed
-        let f10 := match chain.span Sys.neverStops4, input with
-          | (_, .file t :: _), some req =>
+        let f10 := match chain.span (fun e => Sys.neverStops4 e || Sys.isLease e), input with
+          | (pre, .file t :: _), some req =>
             match t.get req.chaddr, Sys.stub4 req, out with
             | some (.v4 a), some _, .send r _ _ _ _ => if r.yiaddr == Sys.be4 a then [] else [s!"FAIL C10 whole chain: listed client answered with {hexB r.yiaddr}, the lease file says {u32Hex a}"]
-            | some (.v4 a), some _, _ => [s!"FAIL C10 whole chain: listed client ({u32Hex a}) not answered"]
+            | some (.v4 a), some _, _ =>
+              -- `range` before `file` may have run out of addresses: then nothing is sent (SYS_file_address4_lease speaks of sent replies)
+              if pre.any Sys.isLease then [] else [s!"FAIL C10 whole chain: listed client ({u32Hex a}) not answered"]
             | _, _, _ => []
           | _, _ => []
+        -- SYS_C14_stamped4 on the observation: `server_id` first (and only once): every reply carries its address in option 54 and siaddr
+        let f14s := match chain, out with
+          | .plug (.serverid c) :: rest, .send r _ _ _ _ =>
+            if rest.all (fun e => !Sys.isServerId4 e) && !(Plug.lookup 54 r.opts == some c && r.siaddr == c) then
+              [s!"FAIL C14 whole chain (server_id first): the reply carries option 54 = {(Plug.lookup 54 r.opts).map hexB} and siaddr = {hexB r.siaddr}, this server is {hexB c}"] else []
+          | _, _ => []
+        -- SYS_C02_lease4 / SYS_C02_addr4 on the observation: `range` reached (only never-stopping plugins before it): a reply that is
+        -- sent carries the lease time `range` is configured with, and (no `file` behind it) an address of its range
+        let f02 := match chain.span Sys.neverStops4, st.range, out with
+          | (_, .lease _ :: post), some rs, .send r _ _ _ _ =>
+            (if post.all (fun e => !Sys.isLease e) && Plug.lookup 51 r.opts != some (Plug.be 4 (leaseOpt rs.lease)) then
+              [s!"FAIL C02 whole chain: the reply carries lease time {(Plug.lookup 51 r.opts).map hexB}, range is configured with {leaseOpt rs.lease} s"] else []) ++
+            (if post.all (fun e => match e with | .file _ => false | .lease _ => false | _ => true) &&
+                !(decide (rs.alloc.start.toNat ≤ bytesToNat r.yiaddr) && decide (bytesToNat r.yiaddr ≤ rs.alloc.stop.toNat)) then
+              [s!"FAIL C02 whole chain: the reply carries address {hexB r.yiaddr}, outside the configured range"] else [])
+          | _, _, _ => []
+        let f14 := f14 ++ f14s ++ f02
         let f13 : List String := []
         let f14 := f14 ++ f10
         brs ++ (if d.isEmpty then [] else [s!"DIVERGE dom[{",".intercalate d}] model={Plug.short (fmtOut4 m)}"]) ++ f11 ++ f15 ++ frt ++ fhdr ++ f14 ++ f13
@@ -295,8 +315,14 @@ def stepDg6 (st : St) (chain6 : List Sys.Elem6) (bound oob src : String) (res : 
                  [s!"FAIL C14 whole chain (server_id first): a message the Server-ID rules discard was answered: {Plug.short res}"] else []
              | none => [])
           | _, _ => []
+        -- SYS_C14_stamped6 on the observation: `server_id` first (and only once): every reply carries exactly one Server Identifier, this server's
+        let f14s := match chain6, out with
+          | .plug (.serverid c) :: rest, .send _ r _ =>
+            if rest.all (fun e => match e with | .plug (.serverid _) => false | _ => true) && r.opts.filter (fun o => o.1 == 2) != [(2, c)] then
+              [s!"FAIL C14 whole chain (server_id first): the reply carries Server Identifier options {(r.opts.filter (fun o => o.1 == 2)).map (fun o => hexB o.2)}, this server's DUID is {hexB c}"] else []
+          | _, _ => []
         let f13 : List String := []
-        brs ++ (if d.isEmpty then [] else [s!"DIVERGE dom[{",".intercalate d}] model={Plug.short (fmtOut6 m)}"]) ++ f12 ++ frt ++ f14 ++ f13
+        brs ++ (if d.isEmpty then [] else [s!"DIVERGE dom[{",".intercalate d}] model={Plug.short (fmtOut6 m)}"]) ++ f12 ++ frt ++ f14 ++ f14s ++ f13
   | _ => ["DIVERGE drift unparsed-result"]
 
 def step (st : St) (op res : String) : St × List String :=
